@@ -96,12 +96,21 @@ RECURSIVE ContractAll(_, _, _)
 ContractAll(P, G, i) == IF i = 0 THEN R(0) ELSE QAdd(ContractRow(P, G, i, NCols(P)), ContractAll(P, G, i - 1))
 Contract(P, G) == ContractAll(P, G, NRows(P))
 
-VARIABLE leaf
-Init == leaf \in GradLeaves
-Next == UNCHANGED leaf
-Spec == Init /\ [][Next]_leaf
+\* the inverse of a scaled-identity / diagonal / dense definite matrix is an object of the same class whose
+\* parameter is the inverse parameter (and which internally holds the transposed inverse factor): its gradients
+\* are those of the class at that parameter
+InvertibleInClass(l) == l.cls \in ScalarClasses \cup VectorClasses \cup DenseClasses
+InvRec(l) ==
+  CASE l.cls \in ScalarClasses -> [l EXCEPT !.scalar = QDiv(R(1), l.scalar)]
+    [] l.cls \in VectorClasses -> [l EXCEPT !.p1 = << [i \in 1..Len(l.p1[1]) |-> QDiv(R(1), l.p1[1][i])] >>]
+    [] l.cls \in DenseClasses -> [l EXCEPT !.p1 = MInverse(l.p1)]
 
-L == Lf(leaf)
+VARIABLES leaf, derived
+Init == leaf \in GradLeaves /\ derived \in {FALSE, TRUE} /\ (derived => InvertibleInClass(Lf(leaf)))
+Next == UNCHANGED <<leaf, derived>>
+Spec == Init /\ [][Next]_<<leaf, derived>>
+
+L == IF derived THEN InvRec(Lf(leaf)) ELSE Lf(leaf)
 IsBlock == L.cls \in BlockClasses
 Size(l) == NRows(RecValue(l))
 
@@ -123,8 +132,8 @@ Export ==
   PrintT(ToJson(
     IF IsBlock
     THEN LET n1 == Size(Lf(L.subs[1])) n2 == Size(Lf(L.subs[2])) v == TestVec(n1 + n2)
-         IN [leaf |-> leaf, block |-> TRUE, vec |-> v,
+         IN [leaf |-> leaf, derived |-> derived, block |-> TRUE, vec |-> v,
              blocks |-> << BlockGrad(L.subs[1], SubSeq(v, 1, n1)), BlockGrad(L.subs[2], SubSeq(v, n1 + 1, n1 + n2)) >>]
-    ELSE [leaf |-> leaf, block |-> FALSE, vec |-> TestVec(Size(L)),
+    ELSE [leaf |-> leaf, derived |-> derived, block |-> FALSE, vec |-> TestVec(Size(L)),
           blocks |-> << [gl |-> GradLogDet(L), gq |-> GradQuad(L, TestVec(Size(L))), cls |-> L.cls] >>]))
 =============================================================================
